@@ -651,3 +651,72 @@ def self_test():  # noqa: F811
     t = ast.parse(POSITIVE_EXAMPLES['stale_indices']).body[0]
     ok['stale_indices'] = bool(stale_indices(t))
     return ok
+
+
+MUTATING = {'clear', 'update', 'append', 'extend', 'pop', 'popitem', 'insert', 'remove', 'setdefault', 'add', 'discard', 'sort',
+            'reverse'}
+
+
+def yield_then_mutate(fnode):
+    """[(var, yield node, mutation node)]: a generator yields a mutable container it built and mutates the same object
+    afterwards without re-binding the name: the consumer that kept the yielded object sees it change"""
+    if not any(isinstance(n, (ast.Yield, ast.YieldFrom)) for n in walk_no_nested(fnode)):
+        return []
+    cfg = CFG(fnode)
+    built = {n.targets[0].id for n in walk_no_nested(fnode) if isinstance(n, ast.Assign) and len(n.targets) == 1
+             and isinstance(n.targets[0], ast.Name)
+             and (isinstance(n.value, (ast.Dict, ast.List, ast.Set))
+                  or (isinstance(n.value, ast.Call) and dotted(n.value.func) in ('dict', 'list', 'set', 'OrderedDict')))}
+    out = []
+    for y in [n for n in cfg.nodes.values() if n.kind == 'yield' and n.ast is not None]:
+        yv = y.ast.value if isinstance(y.ast, (ast.Yield, ast.YieldFrom)) else getattr(getattr(y.ast, 'value', None), 'value', None)
+        if yv is None:
+            continue
+        for v in sorted(_names(yv) & built):
+            kills = {n.id for n in cfg.nodes.values() if n.kind == 'stmt' and isinstance(n.ast, ast.Assign)
+                     and any(isinstance(t, ast.Name) and t.id == v for t in n.ast.targets)}
+            reach = set()
+            for s_ in cfg.g.successors(y.id):
+                if s_ not in kills:
+                    reach |= cfg.reachable(s_, avoid=kills)
+            for r in sorted(reach):
+                nd = cfg.nodes[r]
+                a = nd.ast
+                if a is None or nd.kind != 'stmt':
+                    continue
+                mut = False
+                for c in ast.walk(a):
+                    if isinstance(c, ast.Call) and isinstance(c.func, ast.Attribute) and c.func.attr in MUTATING \
+                            and isinstance(c.func.value, ast.Name) and c.func.value.id == v:
+                        mut = True
+                if isinstance(a, ast.Assign) and any(isinstance(t, ast.Subscript) and isinstance(t.value, ast.Name)
+                                                    and t.value.id == v for t in a.targets):
+                    mut = True
+                if isinstance(a, ast.Delete) and any(isinstance(t, ast.Subscript) and isinstance(t.value, ast.Name)
+                                                    and t.value.id == v for t in a.targets):
+                    mut = True
+                if mut:
+                    out.append((v, y, nd))
+                    break
+    return out
+
+
+POSITIVE_EXAMPLES['yield_then_mutate'] = """
+def f(rows):
+    block = {}
+    for name, content in rows:
+        if name == 'T':
+            if block:
+                yield (1, block)
+                block.clear()
+        else:
+            block[name] = content
+"""
+_self_test_base5 = self_test
+
+
+def self_test():  # noqa: F811
+    ok = _self_test_base5()
+    t = ast.parse(POSITIVE_EXAMPLES['yield_then_mutate']).body[0]
+    ok['yield_then_mutate'] = bool(yield_then_mutate(t))
+    return ok
